@@ -35,3 +35,115 @@ def ref_ops_vectors():
     if n == 0:
         raise Inconclusive("no recorded operation groups found under %s" % TESTS)
     return n
+
+
+def ref_interp_vectors(verbose=False):
+    """Octez' own opcode regression vectors (tests/unit_tests/test_michelson/test_repl/test_opcodes.py + opcodes/*.tz)
+    are executed by the *reference* interpreter. Scripts using instructions outside the reference's scope are skipped.
+    Returns (passed, skipped); any disagreement raises Inconclusive."""
+    import ast
+    import re
+    from pytezos.michelson.parse import MichelsonParser
+    from vlib import ref_interp as ri
+    from vlib import ref_values as rv
+    base = os.path.join(TESTS, "unit_tests/test_michelson/test_repl")
+    src = open(os.path.join(base, "test_opcodes.py")).read()
+    tree = ast.parse(src)
+    consts = {}
+    for node in tree.body:
+        if isinstance(node, ast.Assign) and isinstance(node.value, ast.Constant):
+            consts[node.targets[0].id] = node.value.value
+    vectors = []
+
+    class V(ast.NodeVisitor):
+        def visit_Tuple(self, node):
+            if len(node.elts) == 4 and isinstance(node.elts[0], ast.Constant) and str(node.elts[0].value).endswith(".tz"):
+                try:
+                    vals = []
+                    for e in node.elts:
+                        vals.append(eval(compile(ast.Expression(e), "<v>", "eval"), dict(consts)))
+                    vectors.append(tuple(vals))
+                except Exception:
+                    pass
+            self.generic_visit(node)
+    for node in ast.walk(tree):
+        if isinstance(node, ast.FunctionDef) and node.name == "test_opcodes":
+            for dec in node.decorator_list:
+                V().visit(dec)
+    parser = MichelsonParser()
+    passed = skipped = 0
+    problems = []
+    env = {"amount": 0, "balance": consts.get("BALANCE", 0), "sender": None, "source": None, "now": 0, "level": 1,
+           "chain_id": rc.tz_decode(consts.get("CHAIN_ID", "NetXdQprcVkpaWU"))[1], "self_address": None,
+           "min_block_time": consts.get("MIN_BLOCK_TIME", 1)}
+
+    def strip(t):
+        from vlib.interp import strip_annots
+        t = strip_annots(t)
+
+        def binarize(x):
+            if x["prim"] == "pair" and len(x.get("args", [])) > 2:
+                return rv.pair_t(*[binarize(a) for a in x["args"]])
+            if x.get("args"):
+                return {"prim": x["prim"], "args": [binarize(a) if isinstance(a, dict) and "prim" in a else a for a in x["args"]]}
+            return x
+        return binarize(t)
+
+    for fname, storage, param, expected in vectors:
+        path = os.path.join(base, "opcodes", fname)
+        if not os.path.exists(path):
+            skipped += 1
+            continue
+        try:
+            script = parser.parse(open(path).read())
+            sec = {s["prim"]: s["args"][0] for s in script if s["prim"] in ("parameter", "storage", "code")}
+            pt, st_t = strip(sec["parameter"]), strip(sec["storage"])
+            pv = rv.from_micheline(pt, parser.parse(param))
+            sv = rv.from_micheline(st_t, parser.parse(storage))
+            ev = rv.from_micheline(st_t, parser.parse(expected))
+        except Exception:
+            skipped += 1
+            continue
+        m = ri.Machine(env=dict(env), concrete=True, fuel=200000)
+        try:
+            out = m.run(_strip_code(sec["code"], strip), [(rv.T("pair", pt, st_t), (pv, sv))])
+        except (ri.IllTyped, KeyError, TypeError, AttributeError, ValueError, IndexError):
+            skipped += 1
+            continue
+        except (ri.Failed, ri.RuntimeFail) as e:
+            problems.append((fname, storage, param, "reference failed: %r" % (e,)))
+            continue
+        got = out[0][1][1]
+        if got != ev:
+            problems.append((fname, storage, param, "got %r want %r" % (got, ev)))
+        else:
+            passed += 1
+    if verbose:
+        for p in problems:
+            print(p)
+    if problems:
+        raise Inconclusive("reference interpreter disagrees with %d Octez vectors, e.g. %s" % (len(problems), problems[:3]))
+    return passed, skipped
+
+
+def _strip_code(code, strip_t):
+    """Annotation-free code with binary pair types (the reference works on canonical types)."""
+    if isinstance(code, list):
+        return [_strip_code(c, strip_t) for c in code]
+    if isinstance(code, dict) and "prim" in code:
+        p = code["prim"]
+        out = {"prim": p}
+        if code.get("args"):
+            args = []
+            for a in code["args"]:
+                if isinstance(a, list):
+                    args.append(_strip_code(a, strip_t))
+                elif isinstance(a, dict) and "prim" in a and a["prim"].islower():
+                    args.append(strip_t(a))
+                elif isinstance(a, dict) and "prim" in a and a["prim"].isupper():
+                    args.append(_strip_code(a, strip_t))
+                else:
+                    args.append(a)
+            out["args"] = args
+        return out
+    return code
